@@ -457,6 +457,31 @@ def to_string_rule(run, m, F, E, L):
     return 1
 
 
+def counted_text(run, m, F):
+    """R16.5: text that comes with a length (ST::string, ST::buffer, std::basic_string, std::basic_string_view) keeps it on the way into the
+    stream: no member of string_stream hands the storage of such an argument to a parameter that the callee measures as a
+    NUL-terminated string (an embedded NUL would end the inserted text early).  Expected count: zero."""
+    from .common import counted_roots, cstring_params, measured_at_call
+    cs = cstring_params(m, F)
+    n = 0
+    for name in F.lib:
+        f = m.func(name)
+        if class_of(f) != 'ST::string_stream':
+            continue
+        n += 1
+        for (i, ts, k) in F.calls[name]:
+            for t in ts:
+                for ai in sorted(cs.get(t, ())):
+                    if ai >= len(i.a) or not measured_at_call(m, t, ai, i):
+                        continue
+                    own_ = sorted(r[1] for r in counted_roots(m, f, i.a[ai]) if r[0] == 'own')
+                    if own_:
+                        run.ob('R16.5', short(f.dem), False, 'hands the result of %s() to %s, which measures it as a NUL-terminated string: text after an embedded '
+                               'NUL is not inserted (e.g. the two units {x, 0, y})' % (own_[0], short(m.dem(t), 70)), loc=f.loc(i), disc='arg %d' % ai)
+    run.ob('R16.5', 'counted text keeps its length on the way into the stream', True, '%d members scanned, %d functions measure a parameter as a C string' % (n, len(cs)))
+    return n
+
+
 def check(run):
     m = run.module()
     F = run.facts()
@@ -469,6 +494,7 @@ def check(run):
     run.need(L is not None, 'layout of ST::string_stream not recognised (expected {char*, size_t, size_t, char[N]})')
     nf, direct, derived = funnel(run, m, F, E, L)
     run.counts['to_string dispatch'] = to_string_rule(run, m, F, E, L)
+    run.floor('members scanned for counted text handed on as a C string', counted_text(run, m, F), 30)
     run.floor('operator<< overloads', nf, 20)
     ms = [f for f in owner_methods(m, F, E, L)]
     # members that write the stream only through verified members inherit the invariant from them (induction over operations);
